@@ -94,7 +94,16 @@ func (e *rpEnd) SetReadDeadline(t time.Time) error {
 }
 func (e *rpEnd) SetWriteDeadline(time.Time) error { return nil }
 
+// raceAbandoned counts programs of this worker that did not finish.  A tree on which the
+// free-running programs hang is not judged by this pass at all (it decides data races
+// only); after two of them the remaining programs are skipped instead of waiting each out.
+var raceAbandoned int
+
 func raceProgram(t *testing.T, prog string, il bool) {
+	if raceAbandoned >= 2 {
+		t.Logf("RACE-PASS-INCONCLUSIVE program %q: skipped, %d earlier programs did not finish", prog, raceAbandoned)
+		return
+	}
 	ca, cb := newRacePipe()
 	var a, b *Association
 	var wg sync.WaitGroup
@@ -258,6 +267,7 @@ func raceProgram(t *testing.T, prog string, il bool) {
 			return true
 		case <-time.After(d):
 			t.Logf("RACE-PASS-INCONCLUSIVE program %q: %s not finished after %v (abandoned)", prog, what, d)
+			raceAbandoned++
 			return false
 		}
 	}
